@@ -312,6 +312,64 @@ func URLEscape
   loop 0 inv [distinct] cob.copied ==> arrof(cob.buffer) != arrof(v)
   loop 0 dec limit - i
 
+// ---- BytesFilter (C19): ownership.  Every bucket of a filter lives in an array the filter allocated itself, so a
+// filter derived with Extend shares no writable bucket with its parent or its siblings: an Add on one of them (an
+// append into the bucket's spare capacity) cannot reach another's elements.
+macro bfShape(s) = len(s.slots) == 64 && s.threshold == 3
+func bytesHash
+  modifies nothing
+func NewBytesFilter
+  ensures result != nil && typeis(result, "*util.bytesFilter") && fresh(ifptr(result, "*util.bytesFilter")) && bfShape(ifptr(result, "*util.bytesFilter")) && fresh(ifptr(result, "*util.bytesFilter").slots)
+  ensures [ownBuckets] forall k int :: 0 <= k && k < 64 ==> fresh(ifptr(result, "*util.bytesFilter").slots[k])
+  modifies nothing
+  loop 0 inv bfShape(s) && fresh(s) && fresh(s.slots) && (forall k int :: 0 <= k && k < 64 ==> fresh(s.slots[k]))
+func (*bytesFilter).Add
+  requires bfShape(s)
+  ensures bfShape(s) && sameslice(s.slots, old(s.slots))
+  ensures [ownBuckets] forall k int :: 0 <= k && k < 64 ==> (fresh(s.slots[k]) || arrof(s.slots[k]) == old(arrof(s.slots[k])))
+  modifies object(s), contents(s.slots), nested(s.slots)
+  loop 0 inv 0 <= i && i <= m && m <= 3 && m <= l && l == len(b) && bfShape(s) && sameslice(s.slots, old(s.slots))
+  loop 0 inv forall k int :: 0 <= k && k < 64 ==> arrof(s.slots[k]) == old(arrof(s.slots[k]))
+  loop 0 dec m - i
+func (*bytesFilter).Extend
+  requires bfShape(s)
+  ensures result != nil && typeis(result, "*util.bytesFilter") && fresh(ifptr(result, "*util.bytesFilter")) && fresh(ifptr(result, "*util.bytesFilter").slots)
+  ensures [ownBuckets] forall k int :: 0 <= k && k < 64 ==> fresh(ifptr(result, "*util.bytesFilter").slots[k])
+  ensures [parentKept] sameslice(s.slots, old(s.slots)) && (forall k int :: 0 <= k && k < 64 ==> sameslice(s.slots[k], old(s.slots[k])))
+  loop 0 inv bfShape(newFilter) && fresh(newFilter) && fresh(newFilter.slots) && newFilter != s && arrof(newFilter.slots) != arrof(s.slots)
+  loop 0 inv forall j int :: 0 <= j && j < 64 ==> fresh(newFilter.slots[j])
+  loop 0 inv sameslice(s.slots, old(s.slots)) && (forall k int :: 0 <= k && k < 64 ==> sameslice(s.slots[k], old(s.slots[k])))
+  loop 1 inv bfShape(newFilter) && fresh(newFilter) && fresh(newFilter.slots) && newFilter != s && arrof(newFilter.slots) != arrof(s.slots)
+  loop 1 inv forall j int :: 0 <= j && j < 64 ==> fresh(newFilter.slots[j])
+  loop 1 inv sameslice(s.slots, old(s.slots)) && (forall k int :: 0 <= k && k < 64 ==> sameslice(s.slots[k], old(s.slots[k])))
+
+func (*bytesFilter).ExtendString
+  requires bfShape(s)
+  ensures result != nil && typeis(result, "*util.bytesFilter") && fresh(ifptr(result, "*util.bytesFilter")) && fresh(ifptr(result, "*util.bytesFilter").slots)
+  ensures [ownBuckets] forall k int :: 0 <= k && k < 64 ==> fresh(ifptr(result, "*util.bytesFilter").slots[k])
+  ensures [parentKept] sameslice(s.slots, old(s.slots)) && (forall k int :: 0 <= k && k < 64 ==> sameslice(s.slots[k], old(s.slots[k])))
+  loop 0 inv bfShape(newFilter) && fresh(newFilter) && fresh(newFilter.slots) && newFilter != s && arrof(newFilter.slots) != arrof(s.slots)
+  loop 0 inv forall j int :: 0 <= j && j < 64 ==> fresh(newFilter.slots[j])
+  loop 0 inv sameslice(s.slots, old(s.slots)) && (forall k int :: 0 <= k && k < 64 ==> sameslice(s.slots[k], old(s.slots[k])))
+  loop 1 inv bfShape(newFilter) && fresh(newFilter) && fresh(newFilter.slots) && newFilter != s && arrof(newFilter.slots) != arrof(s.slots)
+  loop 1 inv forall j int :: 0 <= j && j < 64 ==> fresh(newFilter.slots[j])
+  loop 1 inv sameslice(s.slots, old(s.slots)) && (forall k int :: 0 <= k && k < 64 ==> sameslice(s.slots[k], old(s.slots[k])))
+  loop 1 inv 0 <= start && start <= i && i <= len(elements)
+  loop 1 dec len(elements) - i
+func NewBytesFilterString
+  ensures result != nil && typeis(result, "*util.bytesFilter") && fresh(ifptr(result, "*util.bytesFilter")) && bfShape(ifptr(result, "*util.bytesFilter")) && fresh(ifptr(result, "*util.bytesFilter").slots)
+  ensures [ownBuckets] forall k int :: 0 <= k && k < 64 ==> fresh(ifptr(result, "*util.bytesFilter").slots[k])
+  modifies nothing
+  loop 0 inv bfShape(s) && fresh(s) && fresh(s.slots) && (forall k int :: 0 <= k && k < 64 ==> fresh(s.slots[k]))
+  loop 0 inv 0 <= start && start <= i && i <= len(elements)
+  loop 0 dec len(elements) - i
+// Contains only reads
+func (*bytesFilter).Contains
+  requires bfShape(s)
+  modifies nothing
+  loop 0 inv 0 <= i && i <= m && m <= 3 && m <= l && l == len(b)
+  loop 0 dec m - i
+
 // ---- PrioritizedSlice (C20) ----
 // the comparison handed to sort.Slice: element i goes before element j iff its Priority is smaller
 func PrioritizedSlice.Sort$1
